@@ -213,8 +213,20 @@ def scan2 (T : Cfg) : List Char → Nat → List Char → St → Result
 
 /-! ## 4. one step of `_colorize` against one step of `strip` -/
 
+inductive RestRel (T : Cfg) : List Frame → List SFrame → Prop
+  | nil : RestRel T [] []
+  | cons {f sf fs sfs} : FrameRel T f sf → RestRel T fs sfs → RestRel T (f :: fs) (sf :: sfs)
+
+theorem RestRel.cons_inv {T : Cfg} {f : Frame} {fs : List Frame} {l : List SFrame} (h : RestRel T (f :: fs) l) :
+    ∃ sf sfs, l = sf :: sfs ∧ FrameRel T f sf ∧ RestRel T fs sfs := by
+  cases h with
+  | cons a b => exact ⟨_, _, rfl, a, b⟩
+
+theorem RestRel.nil_inv {T : Cfg} {l : List SFrame} (h : RestRel T [] l) : l = [] := by
+  cases h; rfl
+
 def StRel (T : Cfg) (st : St) (ss : SSt) : Prop :=
-  FrameRel T st.top ss.top ∧ List.Forall₂ (FrameRel T) st.rest ss.rest
+  FrameRel T st.top ss.top ∧ RestRel T st.rest ss.rest
 
 theorem tag_kind {c : Char} {t : Tag} (h : colorizingTag c = some t) :
     kindOfLetter c = kindOfTag t ∧ okTag t = true := by
@@ -223,32 +235,63 @@ theorem tag_kind {c : Char} {t : Tag} (h : colorizingTag c = some t) :
 
 theorem append_singleton_ne_nil {α} (l : List α) (a : α) : l ++ [a] ≠ [] := by simp
 
-theorem sim_open {T : Cfg} {st : St} {ss : SSt} (h : st.errs = [] → StRel T st ss) (i : Nat) :
-    ((open2 i ss.cur st).errs = [] → StRel T (open2 i ss.cur st) (stepS T ss '{')) ∧
-    (stepS T ss '{').cur = [] := by
-  unfold open2 stepS litOpen
+theorem stepS_open_cur (T : Cfg) (ss : SSt) : (stepS T ss '{').cur = [] := by
+  unfold stepS
+  simp only [if_true]
+  split
+  · split <;> rfl
+  · rfl
+
+theorem stepS_close_cur (T : Cfg) (ss : SSt) : (stepS T ss '}').cur = [] := by
+  have hne : ('}' = '{') = False := by decide
+  unfold stepS
+  simp only [hne, if_false, if_true]
+  split <;> rfl
+
+theorem open2_errs {i : Nat} {cur : List Char} {st : St} (h : (open2 i cur st).errs = []) : st.errs = [] := by
+  unfold open2 litOpen at h
+  cases hcur : cur.getLast? with
+  | none => simpa [hcur] using h
+  | some l =>
+    simp only [hcur] at h
+    by_cases hcap : isCapital l = true
+    · simp only [hcap, if_true] at h
+      cases htag : colorizingTag l with
+      | none => simp [htag] at h
+      | some t => simpa [htag] using h
+    · simpa [hcap] using h
+
+theorem close2_errs {T : Cfg} {i : Nat} {cur : List Char} {st : St} (h : (close2 T i cur st).errs = []) :
+    st.errs = [] := by
+  unfold close2 at h
+  cases hrest : st.rest with
+  | nil => simp [hrest] at h
+  | cons p r =>
+    simp only [hrest] at h
+    exact (List.append_eq_nil_iff.mp h).1
+
+theorem sim_open {T : Cfg} {st : St} {ss : SSt} (h : st.errs = [] → StRel T st ss) (i : Nat)
+    (he : (open2 i ss.cur st).errs = []) : StRel T (open2 i ss.cur st) (stepS T ss '{') := by
+  obtain ⟨h1, h2⟩ := h (open2_errs he)
+  unfold open2 litOpen at he ⊢
+  unfold stepS
   simp only [if_true]
   cases hcur : ss.cur.getLast? with
   | none =>
     have hc : ss.cur = [] := List.getLast?_eq_none_iff.mp hcur
-    refine ⟨fun he => ?_, rfl⟩
-    obtain ⟨h1, h2⟩ := h he
     refine ⟨rel_new _ _ _ rfl rfl, ?_⟩
-    simpa [hc] using List.Forall₂.cons h1 h2
+    simpa [hc] using RestRel.cons h1 h2
   | some l =>
+    simp only [hcur] at he
     by_cases hcap : isCapital l = true
-    · simp only [hcap, if_true]
+    · simp only [hcap, if_true] at he ⊢
       cases htag : colorizingTag l with
-      | none => exact ⟨fun he => absurd he (append_singleton_ne_nil _ _), rfl⟩
+      | none => simp [htag] at he
       | some t =>
-        refine ⟨fun he => ?_, rfl⟩
-        obtain ⟨h1, h2⟩ := h he
         obtain ⟨hk, ho⟩ := tag_kind htag
-        exact ⟨rel_new _ _ _ hk ho, List.Forall₂.cons (rel_flush h1 _) h2⟩
+        exact ⟨rel_new _ _ _ hk ho, RestRel.cons (rel_flush h1 _) h2⟩
     · simp only [hcap, Bool.false_eq_true, if_false]
-      refine ⟨fun he => ?_, rfl⟩
-      obtain ⟨h1, h2⟩ := h he
-      exact ⟨rel_new _ _ _ rfl rfl, List.Forall₂.cons (rel_flush h1 _) h2⟩
+      exact ⟨rel_new _ _ _ rfl rfl, RestRel.cons (rel_flush h1 _) h2⟩
 
 theorem escapes_lookup (x : List Char) :
     escapes.lookup x = if x = ['l', 'b'] then some '{' else if x = ['r', 'b'] then some '}' else none := by
@@ -379,7 +422,8 @@ theorem closeElem_rel {T : Cfg} (hT : T.Total) {f : Frame} {sf : SFrame} {parent
           exact rel_push_text hp _
         · simp only [h1, h2, if_false] at hr ⊢
           split at hr
-          · simp only [decodeEscape, h1, h2, if_false]
+          · rename_i hlen
+            simp only [decodeEscape, h1, h2, hlen, if_false, if_true]
             exact rel_push_text hp _
           · simp at hr
     · simp at hr
@@ -402,28 +446,22 @@ theorem closeElem_rel {T : Cfg} (hT : T.Total) {f : Frame} {sf : SFrame} {parent
       · simp at hr
     · simp at hr
 
-theorem sim_close {T : Cfg} (hT : T.Total) {st : St} {ss : SSt} (h : st.errs = [] → StRel T st ss) (i : Nat) :
-    ((close2 T i ss.cur st).errs = [] → StRel T (close2 T i ss.cur st) (stepS T ss '}')) ∧
-    (stepS T ss '}').cur = [] := by
+theorem sim_close {T : Cfg} (hT : T.Total) {st : St} {ss : SSt} (h : st.errs = [] → StRel T st ss) (i : Nat)
+    (he : (close2 T i ss.cur st).errs = []) : StRel T (close2 T i ss.cur st) (stepS T ss '}') := by
   have hne : ('}' = '{') = False := by decide
-  unfold close2 stepS
+  obtain ⟨h1, h2⟩ := h (close2_errs he)
+  unfold close2 at he ⊢
+  unfold stepS
   simp only [hne, if_false, if_true]
-  constructor
-  · cases hrest : st.rest with
-    | nil => intro he; exact absurd he (append_singleton_ne_nil _ _)
-    | cons parent rest =>
-      intro he
-      simp only at he
-      have he1 : st.errs = [] := (List.append_eq_nil_iff.mp he).1
-      have he2 := (List.append_eq_nil_iff.mp he).2
-      obtain ⟨h1, h2⟩ := h he1
-      rw [hrest] at h2
-      cases h2 with
-      | cons hp hr =>
-        rename_i sp sr hss
-        simp only
-        exact ⟨closeElem_rel hT (rel_flush h1 _) hp i he2, hr⟩
-  · cases ss.rest <;> rfl
+  cases hrest : st.rest with
+  | nil => simp [hrest] at he
+  | cons parent rest =>
+    simp only [hrest] at he
+    have he2 := (List.append_eq_nil_iff.mp he).2
+    rw [hrest] at h2
+    obtain ⟨sp, sr, hss, hp, hr⟩ := h2.cons_inv
+    simp only [hss]
+    exact ⟨closeElem_rel hT (rel_flush h1 _) hp i he2, hr⟩
 
 /-! ## 5. the whole run -/
 
@@ -441,19 +479,9 @@ theorem scan2_errs (T : Cfg) : ∀ (cs : List Char) (i : Nat) (cur : List Char) 
     intro i cur st h
     simp only [scan2] at h
     split at h
-    · have := ih _ _ _ h
-      unfold open2 litOpen at this
-      split at this
-      · exact this
-      · split at this
-        · split at this
-          · exact (List.append_eq_nil_iff.mp this).1
-          · exact this
-        · exact this
+    · exact open2_errs (ih _ _ _ h)
     · split at h
-      · have := ih _ _ _ h
-        unfold close2 at this
-        split at this <;> exact (List.append_eq_nil_iff.mp this).1
+      · exact close2_errs (ih _ _ _ h)
       · exact ih _ _ _ h
 
 /-- the text `strip` returns from a state -/
@@ -476,9 +504,8 @@ theorem sim (T : Cfg) (hT : T.Total) : ∀ (cs : List Char) (i : Nat) (st : St) 
     have he' : st.errs = [] := by simpa [hrest] using he
     obtain ⟨h1, h2⟩ := h he'
     rw [hrest] at h2
-    cases h2
-    rename_i hss
-    simp only [hrest, List.foldl_nil, finalS, ← hss]
+    have hss := h2.nil_inv
+    simp only [hrest, List.foldl_nil, finalS, hss]
     have := (rel_flush h1 ss.cur).all
     simpa [visible] using this
   | cons c cs ih =>
@@ -487,16 +514,16 @@ theorem sim (T : Cfg) (hT : T.Total) : ∀ (cs : List Char) (i : Nat) (st : St) 
     by_cases h1 : c = '{'
     · subst h1
       simp only [if_true] at he ⊢
-      obtain ⟨hrel, hcur⟩ := sim_open h i
-      have := ih (i + 1) (open2 i ss.cur st) (stepS T ss '{') hrel (by rw [hcur]; exact he)
+      have hcur := stepS_open_cur T ss
+      have := ih (i + 1) (open2 i ss.cur st) (stepS T ss '{') (fun e => sim_open h i e) (by rw [hcur]; exact he)
       rw [hcur] at this
       exact this
     · simp only [h1, if_false] at he ⊢
       by_cases h2 : c = '}'
       · subst h2
         simp only [if_true] at he ⊢
-        obtain ⟨hrel, hcur⟩ := sim_close hT h i
-        have := ih (i + 1) (close2 T i ss.cur st) (stepS T ss '}') hrel (by rw [hcur]; exact he)
+        have hcur := stepS_close_cur T ss
+        have := ih (i + 1) (close2 T i ss.cur st) (stepS T ss '}') (fun e => sim_close hT h i e) (by rw [hcur]; exact he)
         rw [hcur] at this
         exact this
       · simp only [h2, if_false] at he ⊢
@@ -505,4 +532,537 @@ theorem sim (T : Cfg) (hT : T.Total) : ∀ (cs : List Char) (i : Nat) (st : St) 
         rw [hstep]
         exact this
 
+
+/-! ## 6. the slices of `_colorize` are the runs of characters between braces -/
+
+theorem slice_self {α} (t : List α) (a : Nat) : slice t a a = [] := by
+  simp [slice]
+
+theorem slice_length {α} (t : List α) (a b : Nat) : (slice t a b).length = min b t.length - a := by
+  simp [slice]
+
+theorem slice_succ {α} {t : List α} {i a : Nat} {c : α} (h : t[i]? = some c) (ha : a ≤ i) :
+    slice t a (i + 1) = slice t a i ++ [c] := by
+  have hi : i < t.length := (List.getElem?_eq_some_iff.mp h).1
+  unfold slice
+  rw [List.take_add_one, h]
+  simp only [Option.toList_some]
+  rw [List.drop_append_of_le_length (by simp; omega)]
+
+theorem slice_ne_nil {α} (t : List α) {a b : Nat} (hb : b ≤ t.length) : slice t a b ≠ [] ↔ b > a := by
+  rw [← List.length_pos_iff, slice_length]
+  omega
+
+theorem openBrace_eq {text : List Char} {start e : Nat} (st : St) (hs : start ≤ e) (he : e < text.length)
+    (hprev : start = 0 ∨ ∃ b, text[start - 1]? = some b ∧ isCapital b = false) :
+    openBrace text start e st = open2 e (slice text start e) st := by
+  by_cases hlt : start < e
+  · -- the run is not empty; its last character is text[e-1]
+    have hc : ∃ c, text[e - 1]? = some c := ⟨text[e - 1]'(by omega), by simp [List.getElem?_eq_getElem, show e - 1 < text.length by omega]⟩
+    obtain ⟨c, hc⟩ := hc
+    have hsl : slice text start e = slice text start (e - 1) ++ [c] := by
+      have := slice_succ hc (show start ≤ e - 1 by omega)
+      rwa [show e - 1 + 1 = e by omega] at this
+    have hne : slice text start (e - 1) ≠ [] ↔ e - 1 > start := slice_ne_nil text (by omega)
+    unfold openBrace open2 litOpen
+    have he0 : e > 0 := by omega
+    simp only [he0, if_true, hc, hsl, List.getLast?_concat, List.dropLast_concat]
+    by_cases hcap : isCapital c = true
+    · simp only [hcap, if_true]
+      by_cases h1 : e - 1 > start
+      · simp only [h1, hne.mpr h1, if_true, ne_eq, not_false_eq_true]
+        cases colorizingTag c <;> rfl
+      · have : slice text start (e - 1) = [] := by
+          by_cases h : slice text start (e - 1) = []
+          · exact h
+          · exact absurd (hne.mp h) h1
+        simp only [h1, this, if_false, ne_eq, not_true_eq_false]
+        cases colorizingTag c <;> rfl
+    · simp only [hcap, Bool.false_eq_true, if_false]
+      simp [hlt]
+  · have heq : start = e := by omega
+    subst heq
+    unfold openBrace open2 litOpen
+    simp only [slice_self, List.getLast?_nil, Nat.lt_irrefl, if_false]
+    rcases hprev with h0 | ⟨b, hb, hcap⟩
+    · subst h0; simp
+    · by_cases h0 : start > 0
+      · simp [h0, hb, hcap]
+      · simp [h0]
+
+theorem closeBrace_eq {T : Cfg} {text : List Char} {start e : Nat} (st : St) (he : e ≤ text.length) :
+    closeBrace T text start e st = close2 T e (slice text start e) st := by
+  unfold closeBrace close2
+  have hne := slice_ne_nil text (a := start) he
+  by_cases h : e > start
+  · simp only [h, hne.mpr h, if_true, ne_eq, not_false_eq_true]
+    cases st.rest <;> rfl
+  · have : slice text start e = [] := by
+      by_cases h' : slice text start e = []
+      · exact h'
+      · exact absurd (hne.mp h') h
+    simp only [h, this, if_false, ne_eq, not_true_eq_false]
+    cases st.rest <;> rfl
+
+theorem finish_eq {text : List Char} {start i : Nat} (st : St) (hi : text.length ≤ i) :
+    finish text start st = finish2 (slice text start i) st := by
+  have hsl : slice text start i = text.drop start := by simp [slice, List.take_of_length_le hi]
+  unfold finish finish2
+  rw [hsl]
+  by_cases h : start < text.length
+  · have : text.drop start ≠ [] := by simp [List.drop_eq_nil_iff]; omega
+    simp [h, this]
+  · have : text.drop start = [] := by simp [List.drop_eq_nil_iff]; omega
+    simp [h, this]
+
+theorem scan_eq_scan2 (T : Cfg) (text : List Char) : ∀ (cs : List Char) (i start : Nat) (st : St),
+    text.drop i = cs → start ≤ i →
+    (start = 0 ∨ ∃ b, text[start - 1]? = some b ∧ isCapital b = false) →
+    scan T text cs i start st = scan2 T cs i (slice text start i) st := by
+  intro cs
+  induction cs with
+  | nil =>
+    intro i start st hcs _ _
+    simp only [scan, scan2]
+    exact finish_eq st (List.drop_eq_nil_iff.mp hcs)
+  | cons c cs ih =>
+    intro i start st hcs hs hprev
+    have hci : text[i]? = some c := by
+      have := List.getElem?_drop (xs := text) (i := i) (j := 0)
+      rw [hcs] at this
+      simpa using this.symm
+    have hi : i < text.length := (List.getElem?_eq_some_iff.mp hci).1
+    have hnext : text.drop (i + 1) = cs := by
+      have : text.drop (i + 1) = (text.drop i).drop 1 := by rw [List.drop_drop]
+      rw [this, hcs]; rfl
+    simp only [scan, scan2]
+    by_cases h1 : c = '{'
+    · subst h1
+      simp only [if_true]
+      rw [ih (i + 1) (i + 1) _ hnext (Nat.le_refl _) (Or.inr ⟨'{', by simpa using hci, by decide⟩)]
+      rw [slice_self, openBrace_eq st hs hi hprev]
+    · simp only [h1, if_false]
+      by_cases h2 : c = '}'
+      · subst h2
+        simp only [if_true]
+        rw [ih (i + 1) (i + 1) _ hnext (Nat.le_refl _) (Or.inr ⟨'}', by simpa using hci, by decide⟩)]
+        rw [slice_self, closeBrace_eq st (Nat.le_of_lt hi)]
+      · simp only [h2, if_false]
+        rw [ih (i + 1) start st hnext (Nat.le_succ_of_le hs) hprev, slice_succ hci hs]
+
+/-! ## 7. the theorem -/
+
+theorem strip_eq_finalS (T : Cfg) (text : List Char) :
+    strip T text = finalS (text.foldl (stepS T) ⟨[], ⟨.plain, [], none⟩, []⟩) := rfl
+
+/-- **C09, inline markup.** If `_colorize` reports no error for the paragraph `text`, then converting
+its result with `_to_node` does not raise and the visible text is exactly `strip text`: the input
+with tag letters and their braces removed, escapes and symbols decoded, link targets dropped —
+nothing else changed, nothing lost, in order.  (`T`: any symbol tables in which every accepted
+symbol has a code point — `liveCfg_total` for pydoctor's.) -/
+theorem colorize_conserves (T : Cfg) (hT : T.Total) (text : List Char)
+    (h : (colorize T text).errs = []) :
+    visible T (colorize T text).tree = some (strip T text) := by
+  have hbridge : colorize T text = scan2 T text 0 [] ⟨⟨.para, [], 0⟩, [], []⟩ := by
+    unfold colorize
+    rw [scan_eq_scan2 T text text 0 0 _ rfl (Nat.le_refl _) (Or.inl rfl), slice_self]
+  rw [hbridge] at h ⊢
+  rw [strip_eq_finalS]
+  exact sim T hT text 0 ⟨⟨.para, [], 0⟩, [], []⟩ ⟨[], ⟨.plain, [], none⟩, []⟩
+    (fun _ => ⟨rel_new _ _ _ rfl rfl, RestRel.nil⟩) h
+
+/-- the theorem for pydoctor's own tables -/
+theorem colorize_conserves_live (extra : List Char) (text : List Char)
+    (h : (colorize (liveCfg extra) text).errs = []) :
+    visible (liveCfg extra) (colorize (liveCfg extra) text).tree = some (strip (liveCfg extra) text) :=
+  colorize_conserves _ (liveCfg_total extra) text h
+
+def noWord : Cfg := ⟨[['l', 'e']], [(['l', 'e'], 8804)], fun _ => false⟩
+
+/-- non-vacuity: a paragraph with nested markup, a link with target, an escape, a symbol and literal
+braces is accepted, and its visible text is what `strip` says -/
+example :
+    let text := "xI{a B{b}} L{t u <m.f>}E{lb}S{le}{q}".toList
+    (colorize noWord text).errs = [] ∧ strip noWord text = "xa b t u{≤{q}".toList := by
+  decide
+
+/-- `strip` on text without braces is the identity -/
+theorem strip_plain (T : Cfg) (text : List Char) (h : ∀ c ∈ text, c ≠ '{' ∧ c ≠ '}') : strip T text = text := by
+  have key : ∀ (s : List Char) (cur : List Char) (top : SFrame) (rest : List SFrame),
+      (∀ c ∈ s, c ≠ '{' ∧ c ≠ '}') → s.foldl (stepS T) ⟨cur, top, rest⟩ = ⟨cur ++ s, top, rest⟩ := by
+    intro s
+    induction s with
+    | nil => intro cur top rest _; simp
+    | cons c cs ih =>
+      intro cur top rest hc
+      have h1 := (hc c (by simp)).1
+      have h2 := (hc c (by simp)).2
+      simp only [List.foldl_cons]
+      have : stepS T ⟨cur, top, rest⟩ c = ⟨cur ++ [c], top, rest⟩ := by simp [stepS, h1, h2]
+      rw [this, ih _ _ _ (fun x hx => hc x (by simp [hx]))]
+      simp
+  rw [strip_eq_finalS, key text [] _ [] h]
+  cases text with
+  | nil => rfl
+  | cons a as => simp [finalS, SFrame.flush, SFrame.addText, SFrame.all]
+
 end Epytext
+
+/-! ## 8. `doctest.py`: the yielded pieces concatenate to the input -/
+namespace Doctest
+open Epytext (slice joinNL rstrip Line slice_self)
+
+theorem textOf_nil : textOf [] = [] := rfl
+theorem textOf_cons (p : Piece) (ps : List Piece) : textOf (p :: ps) = p.text ++ textOf ps := by
+  simp [textOf]
+theorem textOf_append (a b : List Piece) : textOf (a ++ b) = textOf a ++ textOf b := by
+  simp [textOf]
+
+theorem emitLine_text (P : Params) (line : List Char) : textOf (emitLine P line) = line := by
+  unfold emitLine
+  cases P.promptEnd line with
+  | none =>
+    cases line with
+    | nil => rfl
+    | cons a as => simp [textOf, Piece.text]
+  | some pe =>
+    by_cases h : (line.drop pe).isEmpty = true
+    · have h' : line.drop pe = [] := List.isEmpty_iff.mp h
+      have : line.take pe = line := by
+        have := List.take_append_drop pe line
+        rwa [h', List.append_nil] at this
+      simp [h, textOf, Piece.text, this]
+    · simp [h, textOf, Piece.text]
+
+theorem stringLoop_text (P : Params) : ∀ (rest line : List Char), textOf (stringLoop P line rest) = line ++ rest := by
+  intro rest
+  induction rest with
+  | nil => intro line; simp [stringLoop, emitLine_text]
+  | cons c cs ih =>
+    intro line
+    simp only [stringLoop]
+    by_cases h : c = '\n'
+    · subst h
+      simp [textOf_append, textOf_cons, emitLine_text, ih, Piece.text]
+    · simp [h, ih]
+
+/-- the regex contracts `subfunc` relies on, for the text of one match -/
+def SubOk (P : Params) (kind : MKind) (text : List Char) : Prop :=
+  (kind = .eos → text = []) ∧
+  (kind = .define → ∀ d sp n, P.defineGroups text = some (d, sp, n) → d ++ sp ++ n = text)
+
+theorem subfunc_conserves (P : Params) (kind : MKind) (text : List Char) (ps : List Piece)
+    (hok : SubOk P kind text) (h : subfunc P kind text = .ok ps) : textOf ps = text := by
+  unfold subfunc at h
+  cases kind <;> simp only at h
+  case prompt1 => cases h; simp [textOf, Piece.text]
+  case prompt2 => cases h; simp [textOf, Piece.text]
+  case keyword => cases h; simp [textOf, Piece.text]
+  case builtin => cases h; simp [textOf, Piece.text]
+  case comment => cases h; simp [textOf, Piece.text]
+  case string => cases h; simpa using stringLoop_text P text []
+  case define =>
+    cases hg : P.defineGroups text with
+    | none => simp [hg] at h
+    | some g =>
+      obtain ⟨d, sp, n⟩ := g
+      simp only [hg] at h
+      cases h
+      have := hok.2 rfl d sp n hg
+      simp [textOf, Piece.text, ← this]
+  case eos => cases h; simp [textOf, hok.1 rfl]
+
+theorem slice_append_drop {α} (s : List α) {a b : Nat} (h : a ≤ b) : slice s a b ++ s.drop b = s.drop a := by
+  unfold slice
+  by_cases hb : b ≤ s.length
+  · have : a ≤ (s.take b).length := by simp; omega
+    rw [← List.drop_append_of_le_length this, List.take_append_drop]
+  · have hb' : s.length ≤ b := by omega
+    simp [List.take_of_length_le hb', List.drop_eq_nil_iff.mpr hb']
+
+/-- the spans of `finditer`: non-overlapping and increasing, starting at or after `idx` -/
+def Spans : List Match → Nat → Prop
+  | [], _ => True
+  | m :: ms, idx => idx ≤ m.start ∧ m.start ≤ m.stop ∧ Spans ms m.stop
+
+/-- **C09, code highlighting.** For any non-overlapping increasing match spans, the pieces
+`colorize_codeblock_body` yields concatenate to the input (from `idx` on) -/
+theorem splice_conserves (P : Params) (s : List Char) : ∀ (ms : List Match) (idx : Nat) (ps : List Piece),
+    Spans ms idx → (∀ m ∈ ms, SubOk P m.kind (slice s m.start m.stop)) →
+    codeblockBody P s ms idx = .ok ps → textOf ps = s.drop idx := by
+  intro ms
+  induction ms with
+  | nil =>
+    intro idx ps _ _ h
+    simp only [codeblockBody] at h
+    split at h
+    · cases h; rename_i hi; simp [textOf, hi]
+    · cases h
+  | cons m ms ih =>
+    intro idx ps hsp hok h
+    obtain ⟨h1, h2, h3⟩ := hsp
+    simp only [codeblockBody] at h
+    cases hsub : subfunc P m.kind (slice s m.start m.stop) with
+    | error e => simp [hsub] at h
+    | ok mid =>
+      cases hrest : codeblockBody P s ms m.stop with
+      | error e => simp [hsub, hrest] at h
+      | ok rest =>
+        simp only [hsub, hrest] at h
+        cases h
+        have hmid := subfunc_conserves P m.kind _ mid (hok m (by simp)) hsub
+        have hr := ih m.stop rest h3 (fun x hx => hok x (by simp [hx])) hrest
+        rw [textOf_append, textOf_append, hmid, hr]
+        by_cases hlt : idx < m.start
+        · simp only [hlt, if_true, textOf_cons, textOf_nil, Piece.text, List.append_nil]
+          rw [List.append_assoc, slice_append_drop s h2, slice_append_drop s h1]
+        · have : idx = m.start := by omega
+          simp only [hlt, if_false, textOf_nil, List.nil_append]
+          rw [slice_append_drop s h2, this]
+
+/-- whole input: `colorize_codeblock_body(s)` -/
+theorem splice_conserves_whole (P : Params) (s : List Char) (ms : List Match) (ps : List Piece)
+    (hsp : Spans ms 0) (hok : ∀ m ∈ ms, SubOk P m.kind (slice s m.start m.stop))
+    (h : codeblockBody P s ms 0 = .ok ps) : textOf ps = s := by
+  simpa using splice_conserves P s ms 0 ps hsp hok h
+
+/-- what is displayed for an expected-output group: `want.rstrip()` line by line, each followed by a newline -/
+def wantText (want : List Char) : List Char := if want.isEmpty then [] else rstrip want ++ ['\n']
+
+theorem splitNL_lines (x : List Char) :
+    ((splitNL x).map (fun l => l ++ ['\n'])).flatten = x ++ ['\n'] := by
+  induction x with
+  | nil => rfl
+  | cons c cs ih =>
+    simp only [splitNL]
+    cases hs : splitNL cs with
+    | nil => simp [hs] at ih
+    | cons p ps =>
+      simp only [hs] at ih ⊢
+      by_cases hc : c = '\n'
+      · subst hc
+        simp only [if_true, List.map_cons, List.flatten_cons, List.nil_append]
+        simp only [List.map_cons, List.flatten_cons] at ih
+        rw [ih]; rfl
+      · simp only [hc, if_false, List.map_cons, List.flatten_cons]
+        simp only [List.map_cons, List.flatten_cons] at ih
+        rw [List.cons_append, List.cons_append, ih]
+        rfl
+
+theorem wantPieces_text (exc : Bool) (want : List Char) : textOf (wantPieces exc want) = wantText want := by
+  unfold wantPieces wantText
+  by_cases h : want.isEmpty = true
+  · simp [h, textOf]
+  · simp only [h, Bool.false_eq_true, if_false]
+    rw [← splitNL_lines (rstrip want)]
+    generalize splitNL (rstrip want) = ls
+    induction ls with
+    | nil => rfl
+    | cons l ls ih =>
+      simp only [List.flatMap_cons, textOf_append, ih, List.map_cons, List.flatten_cons]
+      simp [textOf, Piece.text]
+
+/-- spans of `DOCTEST_EXAMPLE_RE.finditer`: increasing, `source` then `want` inside each match; the
+inner `DOCTEST_RE` matches satisfy `Spans` and the regex contracts -/
+def Examples (P : Params) (s : List Char) : List Example → Nat → Prop
+  | [], _ => True
+  | ex :: exs, idx =>
+    idx ≤ ex.start ∧ ex.start ≤ ex.srcEnd ∧ ex.srcEnd ≤ ex.stop ∧
+    Spans ex.inner 0 ∧
+    (∀ m ∈ ex.inner, SubOk P m.kind (slice (slice s ex.start ex.srcEnd) m.start m.stop)) ∧
+    Examples P s exs ex.stop
+
+/-- the text `colorize_doctest_body` displays -/
+def shownText (s : List Char) : List Example → Nat → List Char
+  | [], idx => s.drop idx
+  | ex :: exs, idx =>
+    slice s idx ex.start ++ slice s ex.start ex.srcEnd ++ wantText (slice s ex.srcEnd ex.stop) ++ shownText s exs ex.stop
+
+/-- **C09, doctest blocks**: exact description of the displayed text — the input, except that every
+non-empty expected-output group is replaced by `want.rstrip() + '\n'` -/
+theorem doctest_body_text (P : Params) (s : List Char) : ∀ (exs : List Example) (idx : Nat) (ps : List Piece),
+    Examples P s exs idx → doctestBody P s exs idx = .ok ps → textOf ps = shownText s exs idx := by
+  intro exs
+  induction exs with
+  | nil =>
+    intro idx ps _ h
+    simp only [doctestBody] at h
+    cases h
+    simp [textOf, Piece.text, shownText]
+  | cons ex exs ih =>
+    intro idx ps hex h
+    obtain ⟨_, _, _, hsp, hok, hrest⟩ := hex
+    simp only [doctestBody] at h
+    cases hsrc : codeblockBody P (slice s ex.start ex.srcEnd) ex.inner 0 with
+    | error e => simp [hsrc] at h
+    | ok src =>
+      cases hr : doctestBody P s exs ex.stop with
+      | error e => simp [hsrc, hr] at h
+      | ok rest =>
+        simp only [hsrc, hr] at h
+        cases h
+        have h1 := splice_conserves_whole P _ ex.inner src hsp hok hsrc
+        have h2 := ih ex.stop rest hrest hr
+        simp only [textOf_cons, textOf_append, Piece.text, h1, h2, wantPieces_text, shownText, List.append_assoc]
+
+/-- an expected-output group that `want.rstrip()` leaves intact -/
+def WantOk (want : List Char) : Prop := want = [] ∨ want = rstrip want ++ ['\n']
+
+theorem wantText_of_ok {want : List Char} (h : WantOk want) : wantText want = want := by
+  unfold wantText
+  rcases h with h | h
+  · subst h; rfl
+  · have : want.isEmpty = false := by
+      cases want with
+      | nil => simp at h
+      | cons a as => rfl
+    simp only [this, Bool.false_eq_true, if_false]
+    exact h.symm
+
+theorem shownText_of_ok (P : Params) (s : List Char) : ∀ (exs : List Example) (idx : Nat),
+    Examples P s exs idx → (∀ ex ∈ exs, WantOk (slice s ex.srcEnd ex.stop)) → shownText s exs idx = s.drop idx := by
+  intro exs
+  induction exs with
+  | nil => intro idx _ _; rfl
+  | cons ex exs ih =>
+    intro idx hex hw
+    obtain ⟨h1, h2, h3, _, _, hrest⟩ := hex
+    simp only [shownText]
+    rw [wantText_of_ok (hw ex (by simp)), ih ex.stop hrest (fun x hx => hw x (by simp [hx]))]
+    rw [List.append_assoc, List.append_assoc, slice_append_drop s h3, slice_append_drop s h2, slice_append_drop s h1]
+
+/-
+Full statement — FALSE of the current code:
+
+  theorem doctest_body_conserves : Examples P s exs 0 → doctestBody P s exs 0 = .ok ps → textOf ps = s
+
+`want.rstrip()` removes the white space that ends the last expected-output line of every example
+(and a missing final newline is added).
+-/
+
+/-- **partial**: when every expected-output group is empty or ends with exactly one newline and has no
+other trailing white space, the doctest block is reproduced character for character -/
+theorem doctest_body_conserves_partial (P : Params) (s : List Char) (exs : List Example) (ps : List Piece)
+    (hex : Examples P s exs 0) (hw : ∀ ex ∈ exs, WantOk (slice s ex.srcEnd ex.stop))
+    (h : doctestBody P s exs 0 = .ok ps) : textOf ps = s := by
+  rw [doctest_body_text P s exs 0 ps hex h, shownText_of_ok P s exs 0 hex hw]
+  rfl
+
+def cexText : List Char := ">>> 1\n1  \n".toList
+def cexExamples : List Example := [⟨0, 6, 10, [⟨0, 4, .prompt1⟩, ⟨6, 6, .eos⟩], false⟩]
+
+/-- **counterexample** (`>>> 1` with expected output `1␣␣`): the spans are well formed, the splice
+succeeds, and the displayed text is not the input — the two blanks are gone -/
+theorem doctest_body_conserves_counterexample :
+    (match doctestBody reParams cexText cexExamples 0 with
+     | .ok ps => textOf ps == ">>> 1\n1\n".toList && textOf ps != cexText
+     | .error _ => false) = true := by
+  decide
+
+/-- non-vacuity of the partial theorem: the same example without the trailing blanks is reproduced -/
+example :
+    (match doctestBody reParams ">>> 1\n1\n".toList [⟨0, 6, 8, [⟨0, 4, .prompt1⟩, ⟨6, 6, .eos⟩], false⟩] 0 with
+     | .ok ps => textOf ps == ">>> 1\n1\n".toList
+     | .error _ => false) = true := by
+  decide
+
+/-- non-vacuity of `splice_conserves`: `def f(x): # c` with a DEFINE, a COMMENT and the EOS match -/
+example :
+    (match codeblockBody reParams "def f(x): # c".toList [⟨0, 5, .define⟩, ⟨10, 13, .comment⟩, ⟨13, 13, .eos⟩] 0 with
+     | .ok ps => textOf ps == "def f(x): # c".toList && ps.length == 5
+     | .error _ => false) = true := by
+  decide
+
+end Doctest
+
+/-! ## 9. plaintext -/
+namespace Epytext
+
+/-- **C09, plaintext.** `to_stan` of a plaintext docstring is one `<p class="pre">` whose only child is
+the docstring itself: reproduced exactly (what the flattener does with a string is C10's `Escape`) -/
+theorem plaintext_exact (text : List Char) : (plaintextToStan text).flatten = text := by
+  simp [plaintextToStan]
+
+end Epytext
+
+/-! ## 10. every field is rendered, handed to a displayed attribute, or reported — over the live table -/
+namespace Docstring
+open Fields
+
+/-- `FieldHandler.handle`: every `handle_<tag>` attribute of the class under test, and the fallback for
+any other tag (`customfield` stands for all of them) -/
+def allHandlers : List (String × String) :=
+  Generated.Fields.handlers ++ [("customfield", Generated.Fields.fallback)]
+
+def kinds : List ObjKind := [.module, .cls, .function, .attr]
+def shapes : List Shape :=
+  [⟨false, false, false⟩, ⟨false, false, true⟩, ⟨false, true, false⟩, ⟨false, true, true⟩,
+   ⟨true, false, false⟩, ⟨true, false, true⟩, ⟨true, true, false⟩, ⟨true, true, true⟩]
+
+theorem kinds_complete (k : ObjKind) : k ∈ kinds := by cases k <;> decide
+theorem shapes_complete (s : Shape) : s ∈ shapes := by
+  obtain ⟨a, b, c⟩ := s
+  cases a <;> cases b <;> cases c <;> decide
+
+/-- the inputs on which today's code keeps the field:
+* a field whose handler is `handled_elsewhere` (`ivar`, `cvar`, `var`) stands in a module or class
+  docstring (only those go through `extract_fields`);
+* a `type` field with a name in a module or class docstring names a variable that is assigned in
+  the body or documented by `ivar`/`cvar`/`var` (otherwise `extract_fields` creates an `Attribute`
+  without kind, which is not displayed — e.g. the type of a constructor parameter documented on the class). -/
+def inScope (tag fn : String) (k : ObjKind) (s : Shape) : Bool :=
+  (fn != "handled_elsewhere" || k == .module || k == .cls) &&
+  (!(tag == "type" && (k == .module || k == .cls) && s.hasArg) || s.attrKnown)
+
+theorem table_check :
+    allHandlers.all (fun p => kinds.all fun k => shapes.all fun s =>
+      (outcome p.1 p.2 k s).kept == inScope p.1 p.2 k s) = true := by
+  decide +kernel
+
+/-- exactly the fields outside `inScope` are lost -/
+theorem kept_iff_in_scope (tag fn : String) (h : (tag, fn) ∈ allHandlers) (k : ObjKind) (s : Shape) :
+    (outcome tag fn k s).kept = inScope tag fn k s := by
+  have := table_check
+  rw [List.all_eq_true] at this
+  have := this (tag, fn) h
+  rw [List.all_eq_true] at this
+  have := this k (kinds_complete k)
+  rw [List.all_eq_true] at this
+  simpa using this s (shapes_complete s)
+
+/-
+Full statement — FALSE of the current code:
+
+  theorem every_tag_rendered_or_reported (h : (tag, fn) ∈ allHandlers) (k : ObjKind) (s : Shape) :
+      (outcome tag fn k s).kept = true
+-/
+
+/-- **partial**: every field tag of the live table, in every kind of docstring and every shape of field,
+is displayed under a heading, handed to a displayed attribute, or reported — under `inScope` -/
+theorem every_tag_rendered_or_reported_partial (tag fn : String) (h : (tag, fn) ∈ allHandlers)
+    (k : ObjKind) (s : Shape) (hs : inScope tag fn k s = true) : (outcome tag fn k s).kept = true := by
+  rw [kept_iff_in_scope tag fn h k s, hs]
+
+/-- **counterexamples**: `@ivar x: …` in a function docstring, and `@type a: …` in a class docstring for a
+name that is not a documented variable, are in the table and are dropped: no heading, no displayed
+attribute, no report -/
+theorem every_tag_rendered_or_reported_counterexample :
+    (("ivar", "handled_elsewhere") ∈ allHandlers ∧
+      (outcome "ivar" "handled_elsewhere" .function ⟨true, false, false⟩).kept = false) ∧
+    (("type", "handle_type") ∈ allHandlers ∧
+      (outcome "type" "handle_type" .cls ⟨true, true, false⟩).kept = false) := by
+  decide +kernel
+
+/-- non-vacuity: the same fields where they are in scope -/
+example :
+    (outcome "ivar" "handled_elsewhere" .cls ⟨true, false, false⟩).kept = true ∧
+    (outcome "type" "handle_type" .cls ⟨true, false, true⟩).kept = true ∧
+    (outcome "type" "handle_type" .function ⟨true, true, false⟩).heading = some "Parameters" := by
+  decide +kernel
+
+/-- every handler function of the live table is one the model knows -/
+theorem handlers_modelled :
+    allHandlers.all (fun p => (handler p.2 .function ⟨false, false, false⟩).modelled) = true := by
+  decide +kernel
+
+end Docstring
